@@ -44,7 +44,7 @@ def gen_rx_case(rng):
     a, _ = rand_inst_pair(rng)
     Tms = rng.choice(TIMEOUTS)
     T = ms_to_ns(Tms)
-    p = {'rx_consecutive_frame_timeout': Tms, 'blocksize': rng.choice([0, 1, 2, 3, 8]), 'stmin': 0, 'max_frame_size': 4095}
+    p = {'rx_consecutive_frame_timeout': Tms, 'blocksize': rng.choice([0, 1, 2, 3, 8]), 'stmin': rng.choice([0, 0, 5, 0x7F]), 'max_frame_size': 4095}   # the separation time the layer asks for has no bearing on its own deadline
     if rng.random() < 0.3:
         p['listen_mode'] = True        # a listener abandons a reception after the same deadline
     inst = dict(a, params=p)
@@ -55,6 +55,8 @@ def gen_rx_case(rng):
     pos = rng.randrange(1, len(frames))
     d = rng.choice(deltas(T))
     late = rng.random() < 0.5
+    if not late and rng.random() < 0.15:
+        d = 0       # exactly on the deadline: not yet missed (the timer expires when MORE than the timeout has elapsed)
     gap = T + d if late else max(0, T - d)
     ops = []
     bs = p['blocksize']
@@ -115,6 +117,8 @@ def gen_tx_case(rng):
         p.update(rate_limit_enable=True, rate_limit_max_bitrate=64 * 8, rate_limit_window_size=0.125)
     d = rng.choice(deltas(T))
     late = rng.random() < 0.5
+    if not late and rng.random() < 0.15:
+        d = 0       # exactly on the deadline: not yet missed
     gap = T + d if late else max(0, T - d)
     fc = lambda st, bs: [0, 'rx', rid, int(ext), hx(pfx + bytes([0x30 | st, bs, 0]))]
     ops = [[0, 'send', None, hx(bytes(range(60)))], [0, 'proc', 1, 1]]
